@@ -174,7 +174,22 @@ META = {
 }
 
 
+DROPPED = ["docstrings, type annotations", "argparse parser construction and help text (parse_args() returns an arbitrary namespace)",
+           "__main__ guards", "resource exhaustion (MemoryError, RecursionError), signals, threads (none in the code)",
+           "monkey-patching / rebinding of module globals at run time", "floating point (only math.ceil(a/b) of integers)"]
+TRUSTED = ["assumed contracts of the OS boundary: os.walk, open/read/write/close, os.remove, print (effects on ghost traces; may raise OSError)",
+           "machine arithmetic: none - Python ints are mathematical and are encoded as z3 Int"]
+
+
+TECH = {'C01': 'contracts + z3 VCs on the real source: section consumption posts, dispatch post, parsePEL loop invariant over recursively defined section list; buildOutput by exhaustive enumeration', 'C02': 'contracts + z3 VCs: one postcondition per displayed field against byte-exact spec functions; sharded over flag words / target counts', 'C03': 'contracts + z3 VCs: sub-structure posts with read footprint, getCallouts by three loop invariants, SRC.toJSON posts with sample registries', 'C04': 'contracts + z3 VCs with the parser module havocked (returns/None/null/raises); hex-dump preservation via the C13 contract', 'C05': 'contracts + z3 VCs in both assert modes (assert statements removed for -O): bounds posts, exceptional postconditions, parsePEL-any-input invariant', 'C06': 'AST-extracted rewrite rule + regex->DFA product/emptiness (position lemma for lines of any length) + call-site check + mode loop invariants for the framing', 'C07': "contracts + z3 VCs: decision procedure equals the statement's selection formula over all severities, flags, switches and group sets", 'C08': 'contracts + z3 VCs: getFileList and the three modes by per-file loop invariants over one shared selection predicate (directories of any size)', 'C09': 'contracts + z3 VCs: stdout/stderr/fs ghost traces; per-file loop invariants: undecodable files contribute nothing (directories of any size)', 'C10': 'contracts + z3 VCs: id normalisation, PLID string lemma for all 2^32 ids (base-16 lemmas), look-up loops by (quantified) invariants', 'C11': 'contracts + z3 VCs: frame conditions on the ghost fs trace; deletion loops by invariants; main dispatch over all option combinations', 'C12': 'contracts + z3 VCs: every I/O primitive forks into success/OSError (all fault sequences); remove only after write_ok and close_ok', 'C13': 'contracts + z3 VCs: hexdump loop invariant, per-line parse lemmas on concrete-shape strings for 3 templates, syntactic independence lemma; layout enumeration', 'C14': 'contracts + z3 VCs: wildcard match on symbolic patterns, first-match search (quantified invariant), entry loop invariant', 'C15': 'contracts + z3 VCs: entry framing posts, buffer/format/parse loop invariants over recursively defined positions and line lists', 'C16': 'contracts + z3 VCs: field loop invariant over an arbitrary symbolic field table', 'C17': 'contracts + z3 VCs: partition/order/slice posts over the six header finds; auto-detection post; cross-template lemma', 'C18': 'contracts + z3 VCs over imports/plugin_calls traces with parser modules havocked; plugins-disabled frames', 'C19': 'contracts + z3 VCs: cache invariants preserved by every operation (all histories by induction); frame obligations on shared mutable state', 'C20': 'contracts + z3 VCs: field-exact slicing posts (both assert modes), signature-list invariant, register dump by nested invariants over all data sizes'}
+
+
 def apply(PROPS):
+    import json, os
+    exp = {}
+    ep = os.path.join(os.path.dirname(os.path.abspath(__file__)), 'expected.json')
+    if os.path.exists(ep):
+        exp = json.load(open(ep))
     for pid, m in META.items():
         if pid not in PROPS:
             continue
@@ -184,3 +199,9 @@ def apply(PROPS):
         p['level_note'] = m['note']
         p['explanation'] = m.get('explanation') or m['text']
         p['assumptions'] = COMMON_ASSUMPTIONS + m.get('assumptions', [])
+        p['technique'] = TECH.get(pid, '')
+        p['dropped'] = DROPPED
+        p['trusted_base'] = TRUSTED
+        if pid in exp:
+            # vacuity guard: a run that generates far fewer obligations than the recorded baseline is a checker error
+            p['min_obligations'] = max(p.get('min_obligations', 1), int(exp[pid] * 0.6))
